@@ -129,6 +129,10 @@ def rule_layout(ctx, rep):
                     if pointee is None:
                         pointee = _arc_aggregate_pointee(F, rb)
                     if pointee is None:
+                        from .. import inline
+
+                        pointee = _arc_aggregate_pointee(F, inline.inlined(F, rb["key"]))  # handle built by a private constructor tail
+                    if pointee is None:
                         rep.bad("R-LAYOUT", ik, "cannot determine the block type the allocation is handed out as", F.loc(rb), tag)
                         continue
                     fa = set()
@@ -176,7 +180,7 @@ def rule_layout(ctx, rep):
                         if tag == "default":
                             rep.sample({"rule": "R-LAYOUT", "site": ik, "requested": symx.show(e), "handed_out_as": F.ts(pointee), "cells": ncell})
     rep.evaluations += cells_total
-    rep.floor("R-LAYOUT", 3, "2 hand-computed chains (header+slice, From<Box>) and new_uninit")
+    rep.floor("R-LAYOUT", 2, "at least the header+slice chain and one sized chain (today 3: header+slice, From<Box>, new_uninit)")
 
 
 
@@ -300,7 +304,7 @@ def rule_retype(ctx, rep):
                     rep.bad("R-RETYPE", ik, "a handle's block pointer is re-typed (%s in %s) between types whose layouts differ: %s vs %s for %s, tail length %d - the block would be freed with a layout it was not requested with" % (how, b["key"], bad[2], bad[3], bad[0], bad[1]), F.loc(b, span), tag)
                 else:
                     rep.ok("R-RETYPE", ik, cfg=tag)
-    rep.floor("R-RETYPE", 6, "header erasure (both ways), str, protected<->unchecked, MaybeUninit->init, thin<->thick")
+    rep.floor("R-RETYPE", 3, "header erasure (both ways), str, protected<->unchecked, MaybeUninit->init, thin<->thick")
 
 
 def _nobb(e):
@@ -389,7 +393,7 @@ def rule_fatlen(ctx, rep):
                     rep.ok("R-FATLEN", ik, cfg=tag)
                 else:
                     rep.bad("R-FATLEN", ik, why, F.loc(b, t["span"]), tag)
-    rep.floor("R-FATLEN", 2, "the allocation closure and the thin-to-fat helper")
+    rep.floor("R-FATLEN", 1, "at least one fabricated fat block pointer (today: the allocation closure and the thin-to-fat helper)")
 
 
 def rule_free_type(ctx, rep):
@@ -414,6 +418,30 @@ def rule_free_type(ctx, rep):
                     retyped = raw[0] == "cast" and raw[1] == "PtrToPtr"
                     if n[0] == "stored" and x == ("arg", 1) and not retyped:
                         ok = True
+                    elif n[0] == "arg" and not retyped and not balance.is_api(F, b):
+                        # a private helper taking the raw block pointer (`fn drop_slow(inner: *mut ArcInner<T>)`): every caller
+                        # must hand it its own handle's stored, un-retyped pointer
+                        k = n[1]
+                        sites = 0
+                        good = True
+                        for c in F.body_list:
+                            CB = None
+                            for bl in c["blocks"]:
+                                t3 = bl["term"]
+                                if t3["k"] == "call" and balance._callee_key(t3) == b["key"] and len(t3["args"]) >= k:
+                                    if CB is None:
+                                        CB = cfg.Body(c)
+                                    sites += 1
+                                    raw3 = symx.expr(F, CB, t3["args"][k - 1])
+                                    n3 = N.norm(raw3, {})
+                                    y = n3
+                                    while y[0] == "stored":
+                                        y = y[1]
+                                    if not (n3[0] == "stored" and y == ("arg", 1)) or (raw3[0] == "cast" and raw3[1] == "PtrToPtr"):
+                                        good = False
+                                        why = "the block pointer passed to the freeing helper by %s is %s, not the handle's stored block pointer" % (c["key"], ptrclass.show(n3))
+                        if sites and good:
+                            ok = True
                     elif retyped:
                         why = "the pointer given to Box::from_raw is re-typed first (%s)" % symx.show(raw)
                     else:
@@ -422,7 +450,7 @@ def rule_free_type(ctx, rep):
                 rep.ok("R-FREE-TYPE", ik, cfg=tag)
             else:
                 rep.bad("R-FREE-TYPE", ik, why, F.loc(b, t["span"]), tag)
-    rep.floor("R-FREE-TYPE", 2, "two free sites")
+    rep.floor("R-FREE-TYPE", 1, "at least one free site (today two)")
 
 
 def run(ctx, rep):
